@@ -28,6 +28,8 @@ def Fv : Expr → Bool
   | .cond arms d => FvArms arms && Fv d
   | .and_ es => FvList es
   | .or_ es => FvList es
+  | .newScope es => !es.isEmpty && FvList es
+  | .let_ seq bs body => seq && !body.isEmpty && FvBinds bs && FvList body
   | _ => false
 def FvList : List Expr → Bool
   | [] => true
@@ -35,6 +37,9 @@ def FvList : List Expr → Bool
 def FvArms : List (Expr × Expr) → Bool
   | [] => true
   | (p, b) :: r => Fv p && Fv b && FvArms r
+def FvBinds : List (String × Expr) → Bool
+  | [] => true
+  | (_, e) :: r => Fv e && FvBinds r
 end
 
 /-! ## Reference-side facts about `define` and `lookup` -/
@@ -80,9 +85,9 @@ theorem ref_lookup_none_top (rs : Ref.St) (env : Nat) (x : String) (fr : Ref.Fra
 /-! ## The simulation statement -/
 
 /-- see the file header -/
-def Sim (code : List Instr) (s : St) (env : Nat) (res : Ref.R Val) : Prop :=
+def Sim (code : List Instr) (s : St) (rs : Ref.St) (env : Nat) (res : Ref.R Val) : Prop :=
   match res with
-  | .ok v rs' => ∃ s', Reach code.length 1 s s' ∧ Lands code.length v s s' ∧ Rel s' rs' env
+  | .ok v rs' => ∃ s', Reach code.length 1 s s' ∧ Lands code.length v s s' ∧ Rel s' rs' env ∧ FramesExt rs rs'
   | .err rs' => Fails code.length s rs'.trace
   | .timeout => True
   | .brk _ _ => False
@@ -90,27 +95,44 @@ def Sim (code : List Instr) (s : St) (env : Nat) (res : Ref.R Val) : Prop :=
 
 def VClaimE (n : Nat) : Prop :=
   ∀ e, Fv e = true → ∀ isFn c gs r, (compile isFn c e).run gs = .ok r →
-    ∀ s rs env pre post, Rel s rs env → Seg s pre r.1.1 post → Sim r.1.1 s env (Ref.eval n e env rs)
+    ∀ s rs env pre post, Rel s rs env → Seg s pre r.1.1 post → Sim r.1.1 s rs env (Ref.eval n e env rs)
 
 def VClaimB (n : Nat) : Prop :=
   ∀ es, es ≠ [] → FvList es = true → ∀ isFn c gs r, (compileBegin isFn c es).run gs = .ok r →
-    ∀ s rs env pre post, Rel s rs env → Seg s pre r.1.1 post → Sim r.1.1 s env (Ref.evalBegin n es env rs)
+    ∀ s rs env pre post, Rel s rs env → Seg s pre r.1.1 post → Sim r.1.1 s rs env (Ref.evalBegin n es env rs)
 
 def VClaimC (n : Nat) : Prop :=
   ∀ arms d, FvArms arms = true → Fv d = true → ∀ isFn c gs r gs0 rd,
     (compileArms isFn c arms).run gs = .ok r → (compile isFn c d).run gs0 = .ok rd →
     ∀ s rs env pre post, Rel s rs env → Seg s pre (asmCond r.1 rd.1.1) post →
-      Sim (asmCond r.1 rd.1.1) s env (Ref.evalCond n arms d env rs)
+      Sim (asmCond r.1 rd.1.1) s rs env (Ref.evalCond n arms d env rs)
 
 def VClaimS (n : Nat) : Prop :=
   ∀ isOr es, FvList es = true → ∀ isFn c gs r, (compileSC isFn c es).run gs = .ok r →
     ∀ s rs env pre post, Rel s rs env → Seg s pre (asmSC isOr r.1) post →
-      Sim (asmSC isOr r.1) s env (Ref.evalAndOr n isOr es env rs)
+      Sim (asmSC isOr r.1) s rs env (Ref.evalAndOr n isOr es env rs)
+
+/-- the same for code that leaves no value (the bindings of `letseq`) -/
+def SimU (code : List Instr) (s : St) (rs : Ref.St) (env : Nat) (res : Ref.R Unit) : Prop :=
+  match res with
+  | .ok _ rs' => ∃ s', Reach code.length 1 s s' ∧ Moved code.length s s' ∧ Rel s' rs' env ∧ FramesExt rs rs'
+  | .err rs' => Fails code.length s rs'.trace
+  | .timeout => True
+  | .brk _ _ => False
+  | .cont _ _ => False
+
+def VClaimN (n : Nat) : Prop :=
+  ∀ es, es ≠ [] → FvList es = true → ∀ isFn c oldtail gs r, (compileNewScope isFn c oldtail es).run gs = .ok r →
+    ∀ s rs env pre post, Rel s rs env → Seg s pre r.1.1 post → Sim r.1.1 s rs env (Ref.evalBegin n es env rs)
+
+def VClaimL (n : Nat) : Prop :=
+  ∀ bs, FvBinds bs = true → ∀ isFn c gs r, (compileBinds isFn c true bs).run gs = .ok r →
+    ∀ s rs env pre post, Rel s rs env → Seg s pre r.1.1 post → SimU r.1.1 s rs env (Ref.evalLetSeq n bs env rs)
 
 /-- a literal -/
 theorem sim_push {s : St} {rs : Ref.St} {env : Nat} {pre post : List Instr} (v : Val)
-    (hrel : Rel s rs env) (h : Seg s pre [.push v] post) : Sim [.push v] s env (.ok v rs) :=
-  ⟨s.jmp (s.pc + 1) (some v :: s.data), reach_push h.head, ⟨rfl, by simp, rfl⟩, hrel.jmp _ _⟩
+    (hrel : Rel s rs env) (h : Seg s pre [.push v] post) : Sim [.push v] s rs env (.ok v rs) :=
+  ⟨s.jmp (s.pc + 1) (some v :: s.data), reach_push h.head, ⟨rfl, by simp, rfl⟩, hrel.jmp _ _, FramesExt.refl rs⟩
 
 /-! ## `compile` on Fv: total, generator state untouched, code never empty -/
 
@@ -174,8 +196,31 @@ theorem compile_total_Fv : ∀ (e : Expr), Fv e = true → ∀ isFn c gs,
     rw [compile]
     simp only [g_bind_ok, g_pure_ok]
     exact ⟨_, _, hcs, rfl⟩
+  | .newScope es, he, isFn, c, gs => by
+    rw [Fv] at he
+    simp only [Bool.and_eq_true, Bool.not_eq_true', List.isEmpty_eq_false_iff] at he
+    obtain ⟨code, t, h1, _⟩ := compileNewScope_total_Fv es he.1 he.2 isFn { c with scopes := c.scopes + 1 } c.tail gs
+    refine ⟨[.addScope] ++ code ++ [.removeScope], t, ?_, by simp⟩
+    cases es with
+    | nil => exact absurd rfl he.1
+    | cons e es =>
+      rw [compile]
+      · simp only [g_bind_ok, g_pure_ok]
+        exact ⟨_, _, h1, rfl⟩
+      · intro hh; cases hh
+  | .let_ seq bs body, he, isFn, c, gs => by
+    rw [Fv] at he
+    simp only [Bool.and_eq_true, Bool.not_eq_true', List.isEmpty_eq_false_iff] at he
+    obtain ⟨⟨⟨hseq, hbody⟩, hbs⟩, hbl⟩ := he
+    subst hseq
+    obtain ⟨rhs, t1, h1⟩ := compileBinds_total_Fv bs hbs isFn { c with scopes := c.scopes + 1 } gs
+    obtain ⟨b, t2, h2, _⟩ := compileBegin_total_Fv body hbody hbl isFn
+      { tail := t1, scopes := c.scopes + 1, funcname := c.funcname, known := c.known } gs
+    refine ⟨[.addScope] ++ rhs ++ [] ++ b ++ [.removeScope], t2, ?_, by simp⟩
+    rw [compile]
+    simp only [g_bind_ok, g_pure_ok]
+    exact ⟨_, _, h1, _, _, h2, rfl⟩
   | .arr _, he, _, _, _ | .call _ _, he, _, _, _
-  | .let_ _ _ _, he, _, _, _ | .newScope _, he, _, _, _
   | .for_ _ _ _ _ _, he, _, _, _ | .break_ _, he, _, _, _ | .continue_ _, he, _, _, _
   | .fn _ _ _, he, _, _, _ | .defn _ _ _ _, he, _, _, _ | .assign _ _, he, _, _, _ | .bad _, he, _, _, _ => by
     simp [Fv] at he
@@ -222,6 +267,36 @@ theorem compileSC_total_Fv : ∀ (es : List Expr), FvList es = true → ∀ isFn
       rcases List.mem_cons.mp hx with rfl | hx
       · exact hane
       · exact hbne x hx
+theorem compileNewScope_total_Fv : ∀ (es : List Expr), es ≠ [] → FvList es = true → ∀ isFn c oldtail gs,
+    ∃ code t, (compileNewScope isFn c oldtail es).run gs = .ok ((code, t), gs) ∧ code ≠ []
+  | [], hne, _, _, _, _, _ => absurd rfl hne
+  | [e], _, he, isFn, c, oldtail, gs => by
+    rw [FvList] at he
+    simp only [Bool.and_eq_true] at he
+    rw [compileNewScope]
+    exact compile_total_Fv e he.1 isFn _ gs
+  | e :: e' :: es, _, he, isFn, c, oldtail, gs => by
+    rw [FvList] at he
+    simp only [Bool.and_eq_true] at he
+    obtain ⟨a, ta, ha, hane⟩ := compile_total_Fv e he.1 isFn { c with tail := false } gs
+    obtain ⟨b, tb, hb, _⟩ := compileNewScope_total_Fv (e' :: es) (by simp) he.2 isFn c oldtail gs
+    refine ⟨a ++ [.pop] ++ b, tb, ?_, by simp⟩
+    rw [compileNewScope]
+    · simp only [g_bind_ok, g_pure_ok]
+      exact ⟨_, _, ha, _, _, hb, rfl⟩
+    · intro hh; cases hh
+theorem compileBinds_total_Fv : ∀ (bs : List (String × Expr)), FvBinds bs = true → ∀ isFn c gs,
+    ∃ code t, (compileBinds isFn c true bs).run gs = .ok ((code, t), gs)
+  | [], _, isFn, c, gs => ⟨[], c.tail, by rw [compileBinds]; rfl⟩
+  | (x, e) :: bs, he, isFn, c, gs => by
+    rw [FvBinds] at he
+    simp only [Bool.and_eq_true] at he
+    obtain ⟨a, ta, ha, _⟩ := compile_total_Fv e he.1 isFn c gs
+    obtain ⟨b, tb, hb⟩ := compileBinds_total_Fv bs he.2 isFn { c with tail := ta } gs
+    refine ⟨a ++ [.popStackPutEnv x] ++ b, tb, ?_⟩
+    rw [compileBinds]
+    simp only [g_bind_ok, g_pure_ok]
+    exact ⟨_, _, ha, _, _, hb, rfl⟩
 theorem compileArms_total_Fv : ∀ (arms : List (Expr × Expr)), FvArms arms = true → ∀ isFn c gs,
     ∃ as, (compileArms isFn c arms).run gs = .ok (as, gs)
   | [], _, isFn, c, gs => ⟨[], by rw [compileArms]; rfl⟩
@@ -248,14 +323,14 @@ theorem compile_ne_nil_Fv {e : Expr} (he : Fv e = true) {isFn c gs r}
 
 /-! ## The inductive step -/
 
-theorem Sim.of_err {code : List Instr} {s : St} {env : Nat} {rs' : Ref.St} {K : Nat}
-    (h : Fails K s rs'.trace) (hK : K ≤ code.length) : Sim code s env (.err rs') :=
+theorem Sim.of_err {code : List Instr} {s : St} {rs : Ref.St} {env : Nat} {rs' : Ref.St} {K : Nat}
+    (h : Fails K s rs'.trace) (hK : K ≤ code.length) : Sim code s rs env (.err rs') :=
   h.mono hK
 
 /-- symbol reference -/
 theorem sim_sym {s : St} {rs : Ref.St} {env : Nat} {pre post : List Instr} (x : String) (n : Nat)
     (hrel : Rel s rs env) (h : Seg s pre [.envToStack x] post) :
-    Sim [.envToStack x] s env (Ref.eval (n + 1) (.sym x) env rs) := by
+    Sim [.envToStack x] s rs env (Ref.eval (n + 1) (.sym x) env rs) := by
   rw [Ref.eval]
   have hl := hrel.lexLookup x
   cases hr : Ref.lookup rs env x with
@@ -271,13 +346,13 @@ theorem sim_sym {s : St} {rs : Ref.St} {env : Nat} {pre post : List Instr} (x : 
     simp only [Sim]
     exact ⟨s.jmp (s.pc + 1) (some v :: s.data),
       Reach.step h.head (fun f => by rw [exec_envToStack, hl]),
-      ⟨rfl, by simp, rfl⟩, hrel.jmp _ _⟩
+      ⟨rfl, by simp, rfl⟩, hrel.jmp _ _, FramesExt.refl rs⟩
 
 /-- `def x e`, after `e` has produced `v`: `dup`, then bind in the top scope (re-binding rule) -/
-theorem sim_def_tail {s s₁ : St} {rs₁ : Ref.St} {env : Nat} {pre post ce : List Instr} {x : String} {v : Val}
+theorem sim_def_tail {s s₁ : St} {rs rs₁ : Ref.St} {env : Nat} {pre post ce : List Instr} {x : String} {v : Val}
     (h : Seg s pre (ce ++ [.dup, .popStackPutEnv x]) post)
-    (r1 : Reach ce.length 1 s s₁) (l1 : Lands ce.length v s s₁) (rel1 : Rel s₁ rs₁ env) :
-    Sim (ce ++ [.dup, .popStackPutEnv x]) s env
+    (r1 : Reach ce.length 1 s s₁) (l1 : Lands ce.length v s s₁) (rel1 : Rel s₁ rs₁ env) (ext1 : FramesExt rs rs₁) :
+    Sim (ce ++ [.dup, .popStackPutEnv x]) s rs env
       (match Ref.define rs₁ env x v with | some s' => .ok v s' | none => .err rs₁) := by
   obtain ⟨r2, a3⟩ := glue_dup h l1
   obtain ⟨rest, hlin⟩ := rel1.chain.head
@@ -298,16 +373,16 @@ theorem sim_def_tail {s s₁ : St} {rs₁ : Ref.St} {env : Nat} {pre post ce : L
   have hlen : (ce ++ [Instr.dup, Instr.popStackPutEnv x]).length = ce.length + 1 + 1 := by simp
   have hok : (bindTop x v).run (s₁.jmp (s₁.pc + 1 + 1) (some v :: s.data))
         = (.ok (), (s₁.jmp (s₁.pc + 1 + 1) (some v :: s.data)).bind env x v) →
-      Sim (ce ++ [.dup, .popStackPutEnv x]) s env (.ok v (Ref.setVar rs₁ env x v)) := by
+      Sim (ce ++ [.dup, .popStackPutEnv x]) s rs env (.ok v (Ref.setVar rs₁ env x v)) := by
     intro hb'
     refine ⟨(s₁.jmp (s₁.pc + 1 + 1) (some v :: s.data)).bind env x v, ?_, ⟨l1.fn, ?_, rfl⟩,
-      (rel1.jmp _ _).bind env hlt x v⟩
+      (rel1.jmp _ _).bind env hlt x v, ext1.trans (FramesExt.setVar _ _ _ _)⟩
     · exact ((r1.trans r2).trans (Reach.step a3 (fun f => (hx f).trans hb'))).mono (by rw [hlen]; exact Nat.le_refl _) (by simp)
     · show s₁.pc + 1 + 1 = _
       rw [l1.pc, hlen]; push_cast; omega
   have herr : (bindTop x v).run (s₁.jmp (s₁.pc + 1 + 1) (some v :: s.data))
         = (.error .err, s₁.jmp (s₁.pc + 1 + 1) (some v :: s.data)) →
-      Sim (ce ++ [.dup, .popStackPutEnv x]) s env (.err rs₁) := by
+      Sim (ce ++ [.dup, .popStackPutEnv x]) s rs env (.err rs₁) := by
     intro hb'
     have hf := Fails.of_reach (r1.trans r2) (Fails.step a3 (fun f => (hx f).trans hb'))
     rw [show (s₁.jmp (s₁.pc + 1 + 1) (some v :: s.data)).trace = rs₁.trace from rel1.trace] at hf
@@ -327,10 +402,10 @@ theorem sim_def_tail {s s₁ : St} {rs₁ : Ref.St} {env : Nat} {pre post ce : L
 
 /-- `set x e`, after `e` has produced `v`: `dup`, then assign where the symbol is found, else
 bind in the top scope -/
-theorem sim_set_tail {s s₁ : St} {rs₁ : Ref.St} {env : Nat} {pre post ce : List Instr} {x : String} {v : Val}
+theorem sim_set_tail {s s₁ : St} {rs rs₁ : Ref.St} {env : Nat} {pre post ce : List Instr} {x : String} {v : Val}
     (h : Seg s pre (ce ++ [.dup, .update x]) post)
-    (r1 : Reach ce.length 1 s s₁) (l1 : Lands ce.length v s s₁) (rel1 : Rel s₁ rs₁ env) :
-    Sim (ce ++ [.dup, .update x]) s env
+    (r1 : Reach ce.length 1 s s₁) (l1 : Lands ce.length v s s₁) (rel1 : Rel s₁ rs₁ env) (ext1 : FramesExt rs rs₁) :
+    Sim (ce ++ [.dup, .update x]) s rs env
       (match Ref.lookup rs₁ env x with
        | some (fr, _) => .ok v (Ref.setVar rs₁ fr x v)
        | none => .ok v (Ref.setVar rs₁ env x v)) := by
@@ -355,10 +430,10 @@ theorem sim_set_tail {s s₁ : St} {rs₁ : Ref.St} {env : Nat} {pre post ce : L
   have hok : ∀ id, id < rs₁.frames.length →
       (∀ f, (exec (f + 1) (.update x)).run (s₁.jmp (s₁.pc + 1) (some v :: some v :: s.data))
         = (.ok (), (s₁.jmp (s₁.pc + 1 + 1) (some v :: s.data)).bind id x v)) →
-      Sim (ce ++ [.dup, .update x]) s env (.ok v (Ref.setVar rs₁ id x v)) := by
+      Sim (ce ++ [.dup, .update x]) s rs env (.ok v (Ref.setVar rs₁ id x v)) := by
     intro id hid hx'
     refine ⟨(s₁.jmp (s₁.pc + 1 + 1) (some v :: s.data)).bind id x v, ?_, ⟨l1.fn, ?_, rfl⟩,
-      (rel1.jmp _ _).bind id hid x v⟩
+      (rel1.jmp _ _).bind id hid x v, ext1.trans (FramesExt.setVar _ _ _ _)⟩
     · exact ((r1.trans r2).trans (Reach.step a3 hx')).mono (by rw [hlen]; exact Nat.le_refl _) (by simp)
     · show s₁.pc + 1 + 1 = _
       rw [l1.pc, hlen]; push_cast; omega
@@ -380,27 +455,71 @@ theorem sim_set_tail {s s₁ : St} {rs₁ : Ref.St} {env : Nat} {pre post ce : L
       ref_lookup_none_top rs₁ env x fr hfr hl] at hb
     exact hb
 
+/-- `popStackPutEnv x` with `v` on top of the data stack, in related states: the VM binds in its
+top scope exactly when the reference evaluator's `define` succeeds in the current frame. -/
+theorem psp_step {s₁ : St} {rs₁ : Ref.St} {env : Nat} {P Q : List Instr} {x : String} {v : Val}
+    {D : List (Option Val)} (a : At s₁ P (.popStackPutEnv x) Q) (hd : s₁.data = some v :: D) (rel1 : Rel s₁ rs₁ env) :
+    match Ref.define rs₁ env x v with
+    | some rs₂ => Reach 1 1 s₁ ((s₁.jmp (s₁.pc + 1) D).bind env x v)
+        ∧ Rel ((s₁.jmp (s₁.pc + 1) D).bind env x v) rs₂ env ∧ FramesExt rs₁ rs₂
+    | none => Fails 1 s₁ rs₁.trace := by
+  obtain ⟨rest, hlin⟩ := rel1.chain.head
+  have hlt := rel1.chain.lt
+  obtain ⟨fr, hfr⟩ : ∃ fr, rs₁.frames[env]? = some fr := ⟨rs₁.frames[env], by simp [hlt]⟩
+  have hv := rel1.vars env x
+  rw [List.getD_eq_getElem?_getD, hfr, Option.getD_some] at hv
+  have hx : ∀ f, (exec (f + 1) (.popStackPutEnv x)).run s₁ = (bindTop x v).run (s₁.jmp (s₁.pc + 1) D) :=
+    fun f => exec_popStackPutEnv f x _ v D hd
+  have hb := run_bindTop x v (s₁.jmp (s₁.pc + 1) D)
+  rw [show (s₁.jmp (s₁.pc + 1) D).linear = some env :: rest from hlin] at hb
+  simp only at hb
+  rw [show scopeOf (s₁.jmp (s₁.pc + 1) D) env = scopeOf s₁ env from rfl, hv,
+    show (s₁.jmp (s₁.pc + 1) D).heap = rs₁.heap from rel1.heap] at hb
+  rw [ref_define_eq rs₁ env x v fr hfr]
+  have hok : (bindTop x v).run (s₁.jmp (s₁.pc + 1) D) = (.ok (), (s₁.jmp (s₁.pc + 1) D).bind env x v) →
+      Reach 1 1 s₁ ((s₁.jmp (s₁.pc + 1) D).bind env x v)
+        ∧ Rel ((s₁.jmp (s₁.pc + 1) D).bind env x v) (Ref.setVar rs₁ env x v) env
+        ∧ FramesExt rs₁ (Ref.setVar rs₁ env x v) := fun hb' =>
+    ⟨Reach.step a (fun f => (hx f).trans hb'), (rel1.jmp _ _).bind env hlt x v, FramesExt.setVar _ _ _ _⟩
+  have herr : (bindTop x v).run (s₁.jmp (s₁.pc + 1) D) = (.error .err, s₁.jmp (s₁.pc + 1) D) →
+      Fails 1 s₁ rs₁.trace := fun hb' => by
+    have hf := Fails.step a (fun f => (hx f).trans hb')
+    rw [show (s₁.jmp (s₁.pc + 1) D).trace = rs₁.trace from rel1.trace] at hf
+    exact hf
+  cases hl : fr.vars.lookup x with
+  | none =>
+    rw [hl] at hb
+    exact hok hb
+  | some cur =>
+    rw [hl] at hb
+    simp only at hb ⊢
+    by_cases hrb : rebindOk rs₁.heap cur v = true
+    · rw [if_pos hrb] at hb ⊢
+      exact hok hb
+    · rw [if_neg hrb] at hb ⊢
+      exact herr hb
+
 /-! ## Sequencing -/
 
 /-- From `s` the VM reaches `s₁'` (same function, `k` instructions further, same data stack)
 and from there `c₂` simulates `res`: then the whole `code` (of which `c₂` is the tail) simulates
 `res` from `s`. -/
-theorem Sim.seq {code c₂ : List Instr} {s s₁' : St} {env K₁ k : Nat} {res : Ref.R Val}
-    (hreach : Reach K₁ 1 s s₁') (hmoved : Moved k s s₁') (h₂ : Sim c₂ s₁' env res)
-    (hK : K₁ + c₂.length ≤ code.length) (hk : k + c₂.length = code.length) : Sim code s env res := by
+theorem Sim.seq {code c₂ : List Instr} {s s₁' : St} {rs rs₁ : Ref.St} {env K₁ k : Nat} {res : Ref.R Val}
+    (hreach : Reach K₁ 1 s s₁') (hmoved : Moved k s s₁') (hext : FramesExt rs rs₁) (h₂ : Sim c₂ s₁' rs₁ env res)
+    (hK : K₁ + c₂.length ≤ code.length) (hk : k + c₂.length = code.length) : Sim code s rs env res := by
   cases res with
   | ok v rs' =>
-    obtain ⟨s₂, r, l, rel⟩ := h₂
-    exact ⟨s₂, (hreach.trans r).mono hK (by simp), hk ▸ hmoved.lands l, rel⟩
+    obtain ⟨s₂, r, l, rel, ext⟩ := h₂
+    exact ⟨s₂, (hreach.trans r).mono hK (by simp), hk ▸ hmoved.lands l, rel, hext.trans ext⟩
   | err rs' => exact (Fails.of_reach hreach h₂).mono hK
   | timeout => trivial
   | brk l rs' => exact h₂
   | cont l rs' => exact h₂
 
 /-- a result that is not a value passes through the enclosing form unchanged -/
-theorem Sim.prefix {code c₁ : List Instr} {s : St} {env : Nat} {res : Ref.R Val}
-    (h₁ : Sim c₁ s env res) (hnot : ∀ v rs', res ≠ .ok v rs') (hK : c₁.length ≤ code.length) :
-    Sim code s env res := by
+theorem Sim.prefix {code c₁ : List Instr} {s : St} {rs : Ref.St} {env : Nat} {res : Ref.R Val}
+    (h₁ : Sim c₁ s rs env res) (hnot : ∀ v rs', res ≠ .ok v rs') (hK : c₁.length ≤ code.length) :
+    Sim code s rs env res := by
   cases res with
   | ok v rs' => exact absurd rfl (hnot v rs')
   | err rs' => exact Fails.mono h₁ hK
@@ -409,23 +528,52 @@ theorem Sim.prefix {code c₁ : List Instr} {s : St} {env : Nat} {res : Ref.R Va
   | cont l rs' => exact h₁
 
 /-- `cond`, after the body of the chosen arm: the `jump` behind the form -/
-theorem Sim.cond_exit {p b rest pre post : List Instr} {s s₁' : St} {env K₁ : Nat} {res : Ref.R Val}
+theorem Sim.cond_exit {p b rest pre post : List Instr} {s s₁' : St} {rs rs₁ : Ref.St} {env K₁ : Nat} {res : Ref.R Val}
     (h : Seg s pre (p ++ [.branch false (b.length + 2)] ++ b ++ [.jump (rest.length + 1)] ++ rest) post)
-    (hreach : Reach K₁ 1 s s₁') (hmoved : Moved (p.length + 1) s s₁') (h₂ : Sim b s₁' env res)
-    (hK : K₁ ≤ p.length + 1) :
-    Sim (p ++ [.branch false (b.length + 2)] ++ b ++ [.jump (rest.length + 1)] ++ rest) s env res := by
+    (hreach : Reach K₁ 1 s s₁') (hmoved : Moved (p.length + 1) s s₁') (hext : FramesExt rs rs₁)
+    (h₂ : Sim b s₁' rs₁ env res) (hK : K₁ ≤ p.length + 1) :
+    Sim (p ++ [.branch false (b.length + 2)] ++ b ++ [.jump (rest.length + 1)] ++ rest) s rs env res := by
   have hlen : (p ++ [Instr.branch false (b.length + 2)] ++ b ++ [Instr.jump (rest.length + 1)] ++ rest).length
       = p.length + 1 + b.length + 1 + rest.length := by simp; omega
   cases res with
   | ok v rs' =>
-    obtain ⟨s₂, r, l, rel⟩ := h₂
+    obtain ⟨s₂, r, l, rel, ext⟩ := h₂
     have l2 : Lands (p.length + 1 + b.length) v s s₂ := hmoved.lands l
     obtain ⟨r3, l3⟩ := glue_cond_exit h l2
-    exact ⟨_, ((hreach.trans r).trans r3).mono (by rw [hlen]; omega) (by simp), l3, rel.jmp _ _⟩
+    exact ⟨_, ((hreach.trans r).trans r3).mono (by rw [hlen]; omega) (by simp), l3, rel.jmp _ _, hext.trans ext⟩
   | err rs' => exact (Fails.of_reach hreach h₂).mono (by rw [hlen]; omega)
   | timeout => trivial
   | brk l rs' => exact h₂
   | cont l rs' => exact h₂
+
+/-- `let`/`letseq`/`newScope`: `addScope`, the inner code in the fresh scope (reference: in the
+fresh frame), `removeScope` -/
+theorem Sim.scoped {inner pre post : List Instr} {s : St} {rs : Ref.St} {env : Nat} {res : Ref.R Val}
+    (h : Seg s pre ([.addScope] ++ inner ++ [.removeScope]) post)
+    (hin : Sim inner s.pushScope (Ref.newFrame rs env).2 rs.frames.length res) :
+    Sim ([.addScope] ++ inner ++ [.removeScope]) s rs env res := by
+  obtain ⟨r1, m1⟩ := glue_addScope h
+  have hlen : ([Instr.addScope] ++ inner ++ [Instr.removeScope]).length = 1 + inner.length + 1 := by simp; omega
+  cases res with
+  | ok v rs3 =>
+    obtain ⟨s3, r, l, rel3, ext3⟩ := hin
+    have l' : Lands (1 + inner.length) v s s3 := m1.lands l
+    obtain ⟨rest, hlin⟩ := rel3.chain.head
+    obtain ⟨f, hf, hp⟩ := ext3 rs.frames.length { parent := some env }
+      (by show (rs.frames ++ [_])[rs.frames.length]? = _; simp)
+    obtain ⟨r4, l4⟩ := glue_removeScope h l' hlin
+    exact ⟨_, ((r1.trans r).trans r4).mono (by rw [hlen]; omega) (by simp), l4, rel3.popScope f hf hp,
+      (FramesExt.newFrame rs env).trans ext3⟩
+  | err rs3 => exact (Fails.of_reach r1 hin).mono (by rw [hlen]; omega)
+  | timeout => trivial
+  | brk l rs3 => exact hin
+  | cont l rs3 => exact hin
+
+/-- the segment of the inner code of a scoped form, seen from the state after `addScope` -/
+theorem Seg.inner {inner pre post : List Instr} {s : St}
+    (h : Seg s pre ([.addScope] ++ inner ++ [.removeScope]) post) :
+    Seg s.pushScope (pre ++ [.addScope]) inner ([.removeScope] ++ post) :=
+  h.moved (glue_addScope h).2 (c₁ := [.addScope]) (c₂ := inner) (post' := [.removeScope] ++ post) (by simp) rfl
 
 /-- list-length arithmetic -/
 macro "lenarith" : tactic =>
@@ -434,8 +582,8 @@ macro "lenarith" : tactic =>
 
 /-! ## The four inductive steps -/
 
-theorem vclaimE_succ {n : Nat} (hE : VClaimE n) (hB : VClaimB n) (hC : VClaimC n) (hS : VClaimS n) :
-    VClaimE (n + 1) := by
+theorem vclaimE_succ {n : Nat} (hE : VClaimE n) (hB : VClaimB n) (hC : VClaimC n) (hS : VClaimS n)
+    (hN : VClaimN n) (hL : VClaimL n) : VClaimE (n + 1) := by
   intro e he isFn c gs r hc s rs env pre post hrel hseg
   cases e with
   | int x =>
@@ -470,8 +618,8 @@ theorem vclaimE_succ {n : Nat} (hE : VClaimE n) (hB : VClaimB n) (hC : VClaimC n
     cases h1 : Ref.eval n e1 env rs with
     | ok v rs1 =>
       rw [h1] at ih
-      obtain ⟨s1, r1, l1, rel1⟩ := ih
-      exact sim_def_tail hseg r1 l1 rel1
+      obtain ⟨s1, r1, l1, rel1, ext1⟩ := ih
+      exact sim_def_tail hseg r1 l1 rel1 ext1
     | err rs1 => rw [h1] at ih; exact Sim.prefix ih (fun _ _ hh => by cases hh) (by lenarith)
     | timeout => trivial
     | brk l rs1 => rw [h1] at ih; exact ih.elim
@@ -487,8 +635,8 @@ theorem vclaimE_succ {n : Nat} (hE : VClaimE n) (hB : VClaimB n) (hC : VClaimC n
     cases h1 : Ref.eval n e1 env rs with
     | ok v rs1 =>
       rw [h1] at ih
-      obtain ⟨s1, r1, l1, rel1⟩ := ih
-      exact sim_set_tail hseg r1 l1 rel1
+      obtain ⟨s1, r1, l1, rel1, ext1⟩ := ih
+      exact sim_set_tail hseg r1 l1 rel1 ext1
     | err rs1 => rw [h1] at ih; exact Sim.prefix ih (fun _ _ hh => by cases hh) (by lenarith)
     | timeout => trivial
     | brk l rs1 => rw [h1] at ih; exact ih.elim
@@ -515,7 +663,143 @@ theorem vclaimE_succ {n : Nat} (hE : VClaimE n) (hB : VClaimB n) (hC : VClaimC n
     obtain ⟨cs, gs1, hcs, rfl⟩ := hc
     rw [Ref.eval]
     exact hS true es he isFn c gs (cs, gs1) hcs s rs env pre post hrel hseg
+  | newScope es =>
+    rw [Fv] at he
+    simp only [Bool.and_eq_true, Bool.not_eq_true', List.isEmpty_eq_false_iff] at he
+    cases es with
+    | nil => exact absurd rfl he.1
+    | cons e0 es0 =>
+      rw [compile] at hc
+      · simp only [g_bind_ok, g_pure_ok] at hc
+        obtain ⟨ra, gs1, ha, rfl⟩ := hc
+        rw [Ref.eval]
+        show Sim _ s rs env (Ref.evalBegin n (e0 :: es0) rs.frames.length (Ref.newFrame rs env).2)
+        exact Sim.scoped hseg (hN (e0 :: es0) he.1 he.2 isFn _ _ gs (ra, gs1) ha _ _ _ _ _ hrel.pushScope hseg.inner)
+      · intro hh; cases hh
+  | let_ seq bs body =>
+    rw [Fv] at he
+    simp only [Bool.and_eq_true, Bool.not_eq_true', List.isEmpty_eq_false_iff] at he
+    obtain ⟨⟨⟨hseq, hbody⟩, hbs⟩, hbl⟩ := he
+    subst hseq
+    rw [compile] at hc
+    simp only [g_bind_ok, g_pure_ok] at hc
+    obtain ⟨ra, gs1, ha, rb, gs2, hb, rfl⟩ := hc
+    have hcode : ([Instr.addScope] ++ ra.1 ++ (if True then [] else (List.map (fun p => Instr.popStackPutEnv p.fst) bs).reverse)
+        ++ rb.1 ++ [Instr.removeScope]) = [Instr.addScope] ++ (ra.1 ++ rb.1) ++ [Instr.removeScope] := by simp
+    simp only [hcode] at hseg ⊢
+    rw [Ref.eval]
+    show Sim _ s rs env (if true = true then
+        (match Ref.evalLetSeq n bs rs.frames.length (Ref.newFrame rs env).2 with
+         | .ok _ s => Ref.evalBegin n body rs.frames.length s
+         | .err s => .err s | .brk l s => .brk l s | .cont l s => .cont l s | .timeout => .timeout)
+      else _)
+    rw [if_pos rfl]
+    refine Sim.scoped hseg ?_
+    have hseg1 := hseg.inner
+    have hU := hL bs hbs isFn _ gs (ra, gs1) ha _ _ _ _ _ hrel.pushScope
+      (hseg1.refocus (c' := ra.1) (post' := rb.1 ++ ([.removeScope] ++ post)) (by simp))
+    cases h1 : Ref.evalLetSeq n bs rs.frames.length (Ref.newFrame rs env).2 with
+    | ok u rs2 =>
+      rw [h1] at hU
+      obtain ⟨s2, r2, m2, rel2, ext2⟩ := hU
+      have ihb := hB body hbody hbl isFn _ gs1 (rb, gs2) hb s2 rs2 _ _ _ rel2
+        (hseg1.moved m2 (c₁ := ra.1) (c₂ := rb.1) (post' := [.removeScope] ++ post) (by simp) rfl)
+      exact Sim.seq r2 m2 ext2 ihb (by lenarith) (by lenarith)
+    | err rs2 => rw [h1] at hU; exact Fails.mono hU (by lenarith)
+    | timeout => trivial
+    | brk l rs2 => rw [h1] at hU; exact hU.elim
+    | cont l rs2 => rw [h1] at hU; exact hU.elim
   | _ => simp [Fv] at he
+
+theorem vclaimN_succ {n : Nat} (hE : VClaimE n) (hN : VClaimN n) : VClaimN (n + 1) := by
+  intro es hne hes isFn c oldtail gs r hc s rs env pre post hrel hseg
+  match es, hne with
+  | [e], _ =>
+    rw [FvList] at hes
+    simp only [Bool.and_eq_true] at hes
+    rw [compileNewScope] at hc
+    rw [Ref.evalBegin]
+    exact hE e hes.1 isFn _ gs r hc s rs env pre post hrel hseg
+  | e :: e' :: es', _ =>
+    rw [FvList] at hes
+    simp only [Bool.and_eq_true] at hes
+    rw [compileNewScope] at hc
+    · simp only [g_bind_ok, g_pure_ok] at hc
+      obtain ⟨ra, gs1, ha, rb, gs2, hb, rfl⟩ := hc
+      rw [Ref.evalBegin]
+      · have ih := hE e hes.1 isFn _ gs (ra, gs1) ha s rs env pre ([.pop] ++ rb.1 ++ post) hrel
+          (hseg.refocus (by simp))
+        cases h1 : Ref.eval n e env rs with
+        | ok v1 rs1 =>
+          rw [h1] at ih
+          obtain ⟨s1, r1, l1, rel1, ext1⟩ := ih
+          obtain ⟨r2, m2⟩ := glue_pop hseg l1
+          have ih2 := hN (e' :: es') (by simp) hes.2 isFn c oldtail gs1 (rb, gs2) hb _ rs1 env _ post (rel1.jmp _ _)
+            (hseg.moved m2 (c₁ := ra.1 ++ [.pop]) (c₂ := rb.1) (post' := post) rfl (by simp))
+          exact Sim.seq (r1.trans r2) m2 ext1 ih2 (by lenarith) (by lenarith)
+        | err rs1 => rw [h1] at ih; exact Sim.prefix ih (fun _ _ hh => by cases hh) (by lenarith)
+        | timeout => trivial
+        | brk l rs1 => rw [h1] at ih; exact ih.elim
+        | cont l rs1 => rw [h1] at ih; exact ih.elim
+      · intro hh; cases hh
+    · intro hh; cases hh
+
+theorem vclaimL_succ {n : Nat} (hE : VClaimE n) (hL : VClaimL n) : VClaimL (n + 1) := by
+  intro bs hbs isFn c gs r hc s rs env pre post hrel hseg
+  match bs with
+  | [] =>
+    rw [compileBinds] at hc; simp only [g_pure_ok] at hc; subst hc
+    rw [Ref.evalLetSeq]
+    · exact ⟨s, Reach.refl s |>.mono (Nat.le_refl _) (by simp), Moved.refl s, hrel, FramesExt.refl rs⟩
+    · omega
+  | (x, e) :: bs' =>
+    rw [FvBinds] at hbs
+    simp only [Bool.and_eq_true] at hbs
+    rw [compileBinds] at hc
+    simp only [g_bind_ok, g_pure_ok] at hc
+    obtain ⟨ra, gs1, ha, rb, gs2, hb, rfl⟩ := hc
+    have hcode : (ra.1 ++ (if True then [Instr.popStackPutEnv x] else []) ++ rb.1)
+        = ra.1 ++ [Instr.popStackPutEnv x] ++ rb.1 := by simp
+    simp only [hcode] at hseg ⊢
+    rw [Ref.evalLetSeq]
+    have ih := hE e hbs.1 isFn _ gs (ra, gs1) ha s rs env pre ([.popStackPutEnv x] ++ rb.1 ++ post) hrel
+      (hseg.refocus (by simp))
+    cases h1 : Ref.eval n e env rs with
+    | ok v1 rs1 =>
+      rw [h1] at ih
+      obtain ⟨s1, r1, l1, rel1, ext1⟩ := ih
+      simp only
+      have a2 : At s1 (pre ++ ra.1) (.popStackPutEnv x) (rb.1 ++ post) :=
+        hseg.landed l1 (c₁ := ra.1) (by simp) rfl
+      have hp := psp_step a2 l1.data rel1
+      cases hdef : Ref.define rs1 env x v1 with
+      | none =>
+        rw [hdef] at hp
+        simp only
+        exact (Fails.of_reach r1 hp).mono (by lenarith)
+      | some rs2 =>
+        rw [hdef] at hp
+        obtain ⟨r2, rel2, ext2⟩ := hp
+        simp only
+        have m2 : Moved (ra.1.length + 1) s ((s1.jmp (s1.pc + 1) s.data).bind env x v1) :=
+          ⟨l1.fn, by show s1.pc + 1 = _; rw [l1.pc]; push_cast; omega, rfl⟩
+        have ih2 := hL bs' hbs.2 isFn _ gs1 (rb, gs2) hb _ rs2 env _ post rel2
+          (hseg.moved m2 (c₁ := ra.1 ++ [.popStackPutEnv x]) (c₂ := rb.1) (post' := post) rfl (by simp))
+        cases h2 : Ref.evalLetSeq n bs' env rs2 with
+        | ok u rs3 =>
+          rw [h2] at ih2
+          obtain ⟨s3, r3, m3, rel3, ext3⟩ := ih2
+          exact ⟨s3, ((r1.trans r2).trans r3).mono (by lenarith) (by simp),
+            ⟨m3.fn.trans m2.fn, by rw [m3.pc, m2.pc]; simp only [List.length_append, List.length_cons, List.length_nil]; push_cast; omega,
+              m3.data.trans m2.data⟩, rel3, (ext1.trans ext2).trans ext3⟩
+        | err rs3 => rw [h2] at ih2; exact (Fails.of_reach (r1.trans r2) ih2).mono (by lenarith)
+        | timeout => trivial
+        | brk l rs3 => rw [h2] at ih2; exact ih2.elim
+        | cont l rs3 => rw [h2] at ih2; exact ih2.elim
+    | err rs1 => rw [h1] at ih; exact Fails.mono ih (by lenarith)
+    | timeout => trivial
+    | brk l rs1 => rw [h1] at ih; exact ih.elim
+    | cont l rs1 => rw [h1] at ih; exact ih.elim
 
 theorem vclaimB_succ {n : Nat} (hE : VClaimE n) (hB : VClaimB n) : VClaimB (n + 1) := by
   intro es hne hes isFn c gs r hc s rs env pre post hrel hseg
@@ -541,11 +825,11 @@ theorem vclaimB_succ {n : Nat} (hE : VClaimE n) (hB : VClaimB n) : VClaimB (n + 
         cases h1 : Ref.eval n e env rs with
         | ok v1 rs1 =>
           rw [h1] at ih
-          obtain ⟨s1, r1, l1, rel1⟩ := ih
+          obtain ⟨s1, r1, l1, rel1, ext1⟩ := ih
           obtain ⟨r2, m2⟩ := glue_pop hseg l1
           have ih2 := hB (e' :: es') (by simp) hes.2 isFn c gs1 (rb, gs2) hb _ rs1 env _ post (rel1.jmp _ _)
             (hseg.moved m2 (c₁ := ra.1 ++ [.pop]) (c₂ := rb.1) (post' := post) rfl (by simp))
-          exact Sim.seq (r1.trans r2) m2 ih2 (by lenarith) (by lenarith)
+          exact Sim.seq (r1.trans r2) m2 ext1 ih2 (by lenarith) (by lenarith)
         | err rs1 => rw [h1] at ih; exact Sim.prefix ih (fun _ _ hh => by cases hh) (by lenarith)
         | timeout => trivial
         | brk l rs1 => rw [h1] at ih; exact ih.elim
@@ -575,7 +859,7 @@ theorem vclaimC_succ {n : Nat} (hE : VClaimE n) (hC : VClaimC n) : VClaimC (n + 
     cases h1 : Ref.eval n p env rs with
     | ok v1 rs1 =>
       rw [h1] at ih
-      obtain ⟨s1, r1, l1, rel1⟩ := ih
+      obtain ⟨s1, r1, l1, rel1, ext1⟩ := ih
       simp only
       by_cases ht : truthy v1 = true
       · rw [if_pos ht]
@@ -584,14 +868,14 @@ theorem vclaimC_succ {n : Nat} (hE : VClaimE n) (hC : VClaimC n) : VClaimC (n + 
           (hseg.moved m2 (c₁ := rp.1 ++ [.branch false (rb.1.length + 2)]) (c₂ := rb.1)
             (post' := [.jump ((asmCond rest rd.1.1).length + 1)] ++ asmCond rest rd.1.1 ++ post)
             (by simp) (by simp))
-        exact Sim.cond_exit hseg (r1.trans r2) m2 ih2 (Nat.le_refl _)
+        exact Sim.cond_exit hseg (r1.trans r2) m2 ext1 ih2 (Nat.le_refl _)
       · rw [if_neg ht]
         obtain ⟨r2, m2⟩ := glue_brn_taken hseg l1 (by simpa using ht)
         have ih2 := hC arms' d harms.2 hd isFn c gs (rest, gs1) gs0 rd hrest hcd _ rs1 env _ post (rel1.jmp _ _)
           (hseg.moved m2 (c₁ := rp.1 ++ [.branch false (rb.1.length + 2)] ++ rb.1
               ++ [.jump ((asmCond rest rd.1.1).length + 1)]) (c₂ := asmCond rest rd.1.1) (post' := post)
             (by simp) (by lenarith))
-        exact Sim.seq (r1.trans r2) m2 ih2 (by lenarith) (by lenarith)
+        exact Sim.seq (r1.trans r2) m2 ext1 ih2 (by lenarith) (by lenarith)
     | err rs1 => rw [h1] at ih; exact Sim.prefix ih (fun _ _ hh => by cases hh) (by lenarith)
     | timeout => trivial
     | brk l rs1 => rw [h1] at ih; exact ih.elim
@@ -636,18 +920,18 @@ theorem vclaimS_succ {n : Nat} (hE : VClaimE n) (hS : VClaimS n) : VClaimS (n + 
         cases h1 : Ref.eval n e env rs with
         | ok v1 rs1 =>
           rw [h1] at ih
-          obtain ⟨s1, r1, l1, rel1⟩ := ih
+          obtain ⟨s1, r1, l1, rel1, ext1⟩ := ih
           simp only
           by_cases ht : (truthy v1 == isOr) = true
           · rw [if_pos ht]
             obtain ⟨r2, l2⟩ := glue_sc_stop hseg l1 (by simpa using ht)
-            exact ⟨_, (r1.trans r2).mono (by lenarith) (by simp), l2, rel1.jmp _ _⟩
+            exact ⟨_, (r1.trans r2).mono (by lenarith) (by simp), l2, rel1.jmp _ _, ext1⟩
           · rw [if_neg ht]
             obtain ⟨r2, m2⟩ := glue_sc_go hseg l1 (by simpa using ht)
             have ih2 := hS isOr (e' :: es') hes.2 isFn c gs (rest, gs1) hrest _ rs1 env _ post (rel1.jmp _ _)
               (hseg.moved m2 (c₁ := ra.1 ++ [.dup, .branch isOr ((asmSC isOr rest).length + 2), .pop])
                 (c₂ := asmSC isOr rest) (post' := post) (by simp) (by simp))
-            exact Sim.seq (r1.trans r2) m2 ih2 (by lenarith) (by lenarith)
+            exact Sim.seq (r1.trans r2) m2 ext1 ih2 (by lenarith) (by lenarith)
         | err rs1 => rw [h1] at ih; exact Sim.prefix ih (fun _ _ hh => by cases hh) (by lenarith)
         | timeout => trivial
         | brk l rs1 => rw [h1] at ih; exact ih.elim
@@ -655,8 +939,8 @@ theorem vclaimS_succ {n : Nat} (hE : VClaimE n) (hS : VClaimS n) : VClaimS (n + 
       · intro hh; cases hh
     · intro hh; cases hh
 
-theorem vclaims_zero : VClaimE 0 ∧ VClaimB 0 ∧ VClaimC 0 ∧ VClaimS 0 := by
-  refine ⟨?_, ?_, ?_, ?_⟩
+theorem vclaims_zero : VClaimE 0 ∧ VClaimB 0 ∧ VClaimC 0 ∧ VClaimS 0 ∧ VClaimN 0 ∧ VClaimL 0 := by
+  refine ⟨?_, ?_, ?_, ?_, ?_, ?_⟩
   · intro e _ isFn c gs r _ s rs env pre post _ _
     rw [Ref.eval]; trivial
   · intro es _ _ isFn c gs r _ s rs env pre post _ _
@@ -665,12 +949,17 @@ theorem vclaims_zero : VClaimE 0 ∧ VClaimB 0 ∧ VClaimC 0 ∧ VClaimS 0 := by
     rw [Ref.evalCond]; trivial
   · intro isOr es _ isFn c gs r _ s rs env pre post _ _
     rw [Ref.evalAndOr]; trivial
+  · intro es _ _ isFn c ot gs r _ s rs env pre post _ _
+    rw [Ref.evalBegin]; trivial
+  · intro bs _ isFn c gs r _ s rs env pre post _ _
+    rw [Ref.evalLetSeq]; trivial
 
-theorem vclaims : ∀ n, VClaimE n ∧ VClaimB n ∧ VClaimC n ∧ VClaimS n
+theorem vclaims : ∀ n, VClaimE n ∧ VClaimB n ∧ VClaimC n ∧ VClaimS n ∧ VClaimN n ∧ VClaimL n
   | 0 => vclaims_zero
   | n + 1 => by
-    obtain ⟨hE, hB, hC, hS⟩ := vclaims n
-    exact ⟨vclaimE_succ hE hB hC hS, vclaimB_succ hE hB, vclaimC_succ hE hC, vclaimS_succ hE hS⟩
+    obtain ⟨hE, hB, hC, hS, hN, hL⟩ := vclaims n
+    exact ⟨vclaimE_succ hE hB hC hS hN hL, vclaimB_succ hE hB, vclaimC_succ hE hC, vclaimS_succ hE hS,
+      vclaimN_succ hE hN, vclaimL_succ hE hL⟩
 
 /-- **Segment lemma for Fv** (literals, symbols, `def`, `set`, `begin`, `cond`, `and`, `or`).
 In related states (`Rel s rs env`: same bindings scope by scope, linear stack = static chain of
@@ -682,13 +971,13 @@ script error with the same trace; it never yields `break`/`continue`. -/
 theorem segment_Fv (e : Expr) (he : Fv e = true) (isFn : Nat → Bool) (c : Ctx) (gs : GS)
     (code : List Instr) (t : Bool) (gs' : GS) (hc : (compile isFn c e).run gs = .ok ((code, t), gs'))
     (s : St) (rs : Ref.St) (env : Nat) (pre post : List Instr) (hrel : Rel s rs env) (hseg : Seg s pre code post)
-    (n : Nat) : Sim code s env (Ref.eval n e env rs) :=
+    (n : Nat) : Sim code s rs env (Ref.eval n e env rs) :=
   (vclaims n).1 e he isFn c gs ((code, t), gs') hc s rs env pre post hrel hseg
 
 theorem segment_Fv_begin (es : List Expr) (hne : es ≠ []) (he : FvList es = true) (isFn : Nat → Bool) (c : Ctx) (gs : GS)
     (code : List Instr) (t : Bool) (gs' : GS) (hc : (compileBegin isFn c es).run gs = .ok ((code, t), gs'))
     (s : St) (rs : Ref.St) (env : Nat) (pre post : List Instr) (hrel : Rel s rs env) (hseg : Seg s pre code post)
-    (n : Nat) : Sim code s env (Ref.evalBegin n es env rs) :=
+    (n : Nat) : Sim code s rs env (Ref.evalBegin n es env rs) :=
   (vclaims n).2.1 es hne he isFn c gs ((code, t), gs') hc s rs env pre post hrel hseg
 
 end ZygoVerif.Sim
